@@ -238,9 +238,28 @@ def rule_E2_pipeline(tree: Tree) -> RuleResult:
                 fields[st.targets[0].attr] = try_fold(st.value.slice)
     r.ob(fields.get("label") == 0 and fields.get("client_random") == 1 and fields.get("value") == 2,
          Finding("E2b", "keylog_reader:Key.__init__:field-order", f"Key fields must be (label, client_random, value) = split[0..2], found {fields}", m.relpath))
-    # both ingestion paths in main.run go through get_keys_from_string
+    # the key list only grows while the capture is read: nothing but .extend() touches it inside the capture loop (a clear() / re-binding there makes
+    # secrets that were already delivered disappear for the connections that still need them)
     r.instances += 1
     run = tree.func("main", "run")
+    cfgr = cfg_of(run.node)
+    shrink = []
+    for n in cfgr.nodes:
+        if n.kind != "stmt" or not n.loops:
+            continue
+        for c in ast.walk(n.ast):
+            if isinstance(c, ast.Call) and isinstance(c.func, ast.Attribute) and dotted(c.func.value) == "keylog" and c.func.attr not in ("extend", "append"):
+                shrink.append(src(c, 60))
+        if isinstance(n.ast, (ast.Assign, ast.AugAssign, ast.Delete)):
+            for t in (n.ast.targets if isinstance(n.ast, (ast.Assign, ast.Delete)) else [n.ast.target]):
+                base = t
+                while isinstance(base, ast.Subscript):
+                    base = base.value
+                if dotted(base) == "keylog":
+                    shrink.append(src(n.ast, 60))
+    r.ob(not shrink, Finding("E2b", "main:run:keylog-append-only", f"inside the loops of run() the shared key list must only be extended; found {shrink[:3]}", run.module.line(run.node)))
+    # both ingestion paths in main.run go through get_keys_from_string
+    r.instances += 1
     ext = []
     for n in body_walk(run.node):
         if isinstance(n, ast.Call) and isinstance(n.func, ast.Attribute) and n.func.attr in ("extend", "append") and dotted(n.func.value) == "keylog":
